@@ -40,6 +40,9 @@ package tree
 //@ ghost field rhtL map[Hash]Hash
 //@ ghost field rhtR map[Hash]Hash
 
+// every stored row is content addressed: hash = H(left, right)
+//@ spec fn rhtOK(has map[Hash]bool, L map[Hash]Hash, R map[Hash]Hash) bool = forall(x, Hash, has[x] ==> x == H(L[x], R[x]))
+
 // node reached at level h when descending from root along the bits of idx (level 32 = root, level 0 = leaf)
 //@ spec fn desc(L map[Hash]Hash, R map[Hash]Hash, root Hash, idx uint32, h int) Hash = ite(h >= 32, root, ite(bitAt(idx, h), R[desc(L, R, root, idx, h+1)], L[desc(L, R, root, idx, h+1)]))
 
@@ -142,11 +145,11 @@ package tree
 //@   props C01 C04 C07 C08 C11
 //@   requires t != nil
 //@   requires forall(k, 0, len(nodes), nodes[k].Hash == H(nodes[k].Left, nodes[k].Right))
-//@   requires forall(x, Hash, rhtHas(t)[x] ==> x == H(rhtL(t)[x], rhtR(t)[x]))
+//@   requires rhtOK(rhtHas(t), rhtL(t), rhtR(t))
 //@   modifies rhtHas(t), rhtL(t), rhtR(t), stmtFail
 //@   ensures[fault-counted] stmtFail == old(stmtFail) + ite(result == nil, 0, 1)
 //@   ensures[rows-only-added] forall(x, Hash, old(rhtHas(t))[x] ==> rhtHas(t)[x] && rhtL(t)[x] == old(rhtL(t))[x] && rhtR(t)[x] == old(rhtR(t))[x])
-//@   ensures[content-addressed] forall(x, Hash, rhtHas(t)[x] ==> x == H(rhtL(t)[x], rhtR(t)[x]))
+//@   ensures[content-addressed] rhtOK(rhtHas(t), rhtL(t), rhtR(t))
 //@   ensures[every-node-stored] result == nil ==> forall(k, 0, len(nodes), rhtHas(t)[nodes[k].Hash] && rhtL(t)[nodes[k].Hash] == nodes[k].Left && rhtR(t)[nodes[k].Hash] == nodes[k].Right)
 //@   loop 0 invariant 0 <= i && i <= len(nodes) && stmtFail == old(stmtFail)
 //@   loop 0 invariant forall(x, Hash, old(rhtHas(t))[x] ==> rhtHas(t)[x] && rhtL(t)[x] == old(rhtL(t))[x] && rhtR(t)[x] == old(rhtR(t))[x])
@@ -182,6 +185,7 @@ package tree
 //@ func (t *AppendOnlyTree) AddLeaf
 //@   props C01 C07
 //@   requires t != nil && t.Tree != nil && tx != nil
+//@   requires rhtOK(rhtHas(t.Tree), rhtL(t.Tree), rhtR(t.Tree))
 //@   requires len(t.zeroHashes) == 33 && forall(k, 0, 33, t.zeroHashes[k] == zeroAt(k))
 //@   requires 0 <= solCount(t) && solCount(t) < 4294967295 && 0 <= txCount(t) && txCount(t) < 4294967295 && txCount(t) <= solCount(t)
 //@   requires t.lastIndex + 1 == solCount(t) && leaf.Index == solCount(t)
@@ -192,6 +196,7 @@ package tree
 //@   set leafCalls := old(leafCalls) + 1
 //@   set lastLeafErr := result
 //@   ensures[outcome-recorded] leafCalls == old(leafCalls) + 1 && lastLeafErr == result
+//@   ensures[rht-content-addressed] rhtOK(rhtHas(t.Tree), rhtL(t.Tree), rhtR(t.Tree))
 //@   ensures[success-means-stored] result == nil ==> stmtFail == old(stmtFail)
 // ghost code: on success the mirrored contract performs _addLeaf(leaf.Hash)
 //@   set solCount(t) := ite(result == nil, old(solCount(t)) + 1, old(solCount(t)))
@@ -223,10 +228,12 @@ package tree
 //@   behavior any
 //@   props C07 C14
 //@   requires t != nil && t.Tree != nil && tx != nil && len(t.zeroHashes) == 33
+//@   requires rhtOK(rhtHas(t.Tree), rhtL(t.Tree), rhtR(t.Tree))
 //@   modifies t.lastIndex, t.lastLeftCache, solBranch(t), solCount(t), rootHas(t.Tree), rootHash(t.Tree), rootBlock(t.Tree), rootPos(t.Tree), rhtHas(t.Tree), rhtL(t.Tree), rhtR(t.Tree), undoCnt(tx), leafCalls, lastLeafErr, stmtFail
 //@   set leafCalls := old(leafCalls) + 1
 //@   set lastLeafErr := result
 //@   ensures[outcome-recorded] leafCalls == old(leafCalls) + 1 && lastLeafErr == result
+//@   ensures[rht-content-addressed] rhtOK(rhtHas(t.Tree), rhtL(t.Tree), rhtR(t.Tree))
 //@   ensures[success-means-stored] result == nil ==> stmtFail == old(stmtFail)
 //@   ensures[callback-iff-success] undoCnt(tx) == old(undoCnt(tx)) + ite(result == nil, 1, 0)
 //@   ensures[root-row-iff-success] result != nil ==> rootHas(t.Tree) == old(rootHas(t.Tree)) || rootHas(t.Tree) == upd(old(rootHas(t.Tree)), leaf.Index, true)
